@@ -213,6 +213,74 @@ def job_paths(_):
     return {"part": [(("paths", 0), rows)], "n": len(paths) ** 2}
 
 
+# ----------------------------------------------------------------- P4 unusual keys / attribute names
+ATTR_POOL = ["mro", "__name__", "__qualname__", "__mro__", "__bases__", "__base__", "__flags__", "__dictoffset__", "__basicsize__",
+             "__subclasses__", "__prepare__", "__text_signature__", "real", "imag", "keys", "items", "T", "shape", "x", "abc", "copy"]
+
+
+def job_unusual(_):
+    """attribute-style assignment of fields with unusual names (names that are attributes of the metaclass, of numbers, of
+    dicts) through every kind of ref, and item keys that are numpy scalars.  Names that are attributes of the ref object
+    itself are excluded: the library documents that case as build-dependent."""
+    import numpy as np
+    import xdeps
+    out = []
+    for kind in ("ref.obj", "ref.nested-obj", "refattr"):
+        for name in ATTR_POOL:
+            m = xdeps.Manager()
+            obj = T.PObj(q=1.0)
+            data = {"o": T.PObj(q=2.0), "q": 3.0, "d": 0.0}
+            if kind == "ref.obj":
+                r, holder, target = m.ref(obj, "s"), obj, obj
+            elif kind == "ref.nested-obj":
+                top = m.ref(data, "s")
+                r, holder, target = top["o"], data, data["o"]
+            else:
+                r, holder, target = m.refattr(data, "s"), data, data
+            if name in dir(r):
+                out.append(dg((kind, name, "excluded")))
+                continue
+            tr = [kind, name]
+            # a dependant of the field, defined first
+            try:
+                dep = m.ref({"out": None}, "w")
+                dep["out"] = getattr(r, name) * 2 if not isinstance(target, dict) or True else None
+                tr.append("dep-defined")
+            except Exception as e:  # noqa
+                tr.append(("dep-exc", type(e).__name__))
+                dep = None
+            try:
+                setattr(r, name, 42.0)
+                tr.append("ok")
+            except Exception as e:  # noqa
+                tr.append(type(e).__name__)
+            got = target.get(name, "<absent>") if isinstance(target, dict) else target.__dict__.get(name, "<absent>")
+            tr.append(repr(got))
+            tr.append(repr(dep._owner.get("out")) if dep is not None else None)
+            tr.append(sorted(str(k) for k in m.tasks))
+            out.append(dg(tr))
+    # numpy scalars as item keys
+    for key in (np.int64(1), np.int32(0), np.float64(0.5), np.bool_(True), np.str_("a")):
+        m = xdeps.Manager()
+        data = {"l": [5, 8, 13], 0.5: 7, "a": 9, True: 4, "out": None, "k2": None}
+        s = m.ref(data, "s")
+        tr = [repr(type(key).__name__)]
+        for base in (s["l"], s):
+            try:
+                e = base[key]
+                tr += [str(e), vdesc(E.outcome(lambda: e._get_value())), sorted(str(x) for x in e._get_dependencies()),
+                       e == base[key], hash(e) == hash(base[key])]
+                s["out"] = e * 2
+                tr += [repr(data["out"]), m.dump()]
+                tr.append(vdesc(E.outcome(lambda: xdeps.Manager().load(m.dump(), {"s": s}))))
+                base[key] = 21
+                tr += [repr(norm(data["out"])), repr(data["l"]), sorted(map(repr, data))]
+            except Exception as ex:  # noqa
+                tr.append(type(ex).__name__)
+        out.append(dg(tr))
+    return {"part": [(("unusual", 0), out)], "n": len(out)}
+
+
 # ----------------------------------------------------------------- driver
 def sizes(tier):
     return {"nest": 3, "mixq": 2} if tier == "quick" else {"nest": 3, "mix": 2, "nest_full": 2}
@@ -251,8 +319,9 @@ def run_job(job):
         corpus = corpus[::3]
     r2 = E.pmap_collect(job_terms, [(lo, corpus[lo:lo + 500]) for lo in range(0, len(corpus), 500)], nproc)
     r3 = job_paths(None)
+    r4 = job_unusual(None)
     parts = {}
-    for r in r1 + r2 + [r3]:
+    for r in r1 + r2 + [r3, r4]:
         for key, lst in _parts(r):
             parts[key] = lst
     under = sum(1 for k, lst in parts.items() for x in lst if x is None)
@@ -307,6 +376,11 @@ def describe_program(key, idx):
         return [f"history #{key[1] + idx} of alphabet {kind!r} (depth bound per tier); see replay"]
     if kind == "terms":
         return [f"term #{key[1] + idx} of the C11 corpus"]
+    if kind == "unusual":
+        n = len(ATTR_POOL)
+        if idx < 3 * n:
+            return [f"attribute-style assignment of the field {ATTR_POOL[idx % n]!r} through a {('Ref over an object', 'nested AttrRef owner', 'refattr container')[idx // n]}"]
+        return [f"numpy scalar item key #{idx - 3 * n}"]
     return [f"path #{idx} of the path family vs all others"]
 
 
@@ -344,6 +418,6 @@ def replay(issue):
                 if got == want_other:
                     return {"still_fails": False, "what": "digests agree"}
         return {"still_fails": True, "what": "term transcript still differs from the other configuration"}
-    r = job_paths(None)
+    r = job_unusual(None) if kind == "unusual" else job_paths(None)
     got = r["part"][0][1][idx].hex()
-    return {"still_fails": got != want_other, "what": f"path row digest {got} vs {want_other}"}
+    return {"still_fails": got != want_other, "what": f"{kind} case #{idx}: digest {got} vs {want_other} in the other configuration"}
